@@ -510,7 +510,7 @@ func (g *vC06Gen) goodObs(node uint64, s vC06Send) vC06Body {
 }
 
 // corrupt one aspect of an otherwise correct observation
-func (g *vC06Gen) corruptObs(b *vC06Body) string { return g.corruptObsK(b, g.r.Intn(22)) }
+func (g *vC06Gen) corruptObs(b *vC06Body) string { return g.corruptObsK(b, g.r.Intn(24)) }
 
 func (g *vC06Gen) corruptObsK(b *vC06Body, k int) string {
 	r := g.r
@@ -604,6 +604,12 @@ func (g *vC06Gen) corruptObsK(b *vC06Body, k int) string {
 			b.lus = b.lus[:len(b.lus)-1]
 			return "lane-subset"
 		}
+	case 22, 23:
+		// a correctly signed observation without any lane update: validation accepts it; the comparator of
+		// transformAndSortObservations would index FixedDestLaneUpdates[0] of it if the same node had a second
+		// accepted observation
+		b.lus = nil
+		return "zero-lanes"
 	case 19:
 		// a lane the node is not an observer of
 		for _, rq := range g.c.reqs {
@@ -737,6 +743,10 @@ func (g *vC06Gen) next(sends []vC06Send) (node uint64, body vC06Body, cls string
 			sx := vPick(r, xs)
 			b := mk(sx.node, sx)
 			b.rid, b.iid = sy.rid, sy.iid
+			if !phaseB && r.Chance(1, 3) {
+				b.lus = nil
+				return sx.node, b, "foreign-id-zero-lanes"
+			}
 			return sx.node, b, "foreign-id"
 		}
 	case k == 8 && len(sends) > 0: // an id of the other phase / of a failed Send
@@ -839,7 +849,7 @@ func vC06Run(r *vRand, cfgCls string, maxItems int, watchdog time.Duration) (coq
 	gen := &vC06Gen{r: r, c: c, used: map[uint64]bool{}, honest: vPick(r, []int{97, 92, 85, 70, 40, 15}),
 		villainA: -1, villainB: -1}
 	if r.Chance(1, 3) {
-		gen.villainA = vPick(r, []int{19, 19, 10, 11, 12, 13, 9, 7, 8, 15, 6, 5, 4, 14, 16})
+		gen.villainA = vPick(r, []int{19, 19, 10, 11, 12, 13, 9, 7, 8, 15, 6, 5, 4, 14, 16, 22, 22})
 		gen.villainB = vPick(r, []int{1, 2, 2, 0})
 		gen.honest = 95
 	}
